@@ -88,6 +88,8 @@ SITES = {
                               parent="src/core/serialization/mod.rs", modpath="core::serialization::verif_k7"),
     "serialization_min2": dict(file="serialization_min2.rs", include=["common.rs"], modname="verif_k8",
                                parent="src/core/serialization/mod.rs", modpath="core::serialization::verif_k8"),
+    "serialization_min3": dict(file="serialization_min3.rs", include=["common.rs"], modname="verif_k9",
+                               parent="src/core/serialization/mod.rs", modpath="core::serialization::verif_k9"),
     "policy_model": dict(file="policy_model.rs", include=["common.rs"], parent="src/abe_policy/access_structure.rs",
                          modpath="abe_policy::access_structure::verif_k"),
 }
@@ -332,6 +334,14 @@ H("zr_header_metadata_read", "serialization_min2", ["C13"], "quick", build="mode
   covers=["reached"],
   desc="EncryptedHeader::read: an empty metadata vector on the wire reads back as absent metadata, one byte of metadata reads back as that byte; every byte consumed",
   bounds="explicit wire images over the smallest encapsulation (no trap, no right-encapsulation): tag and metadata byte symbolic")
+H("zr_right_public_key_read", "serialization_min3", ["C13", "C11"], "quick", build="model", unwind=4, timeout=600, loops=CMP34,
+  covers=["reached"],
+  desc="RightPublicKey::read(W(v)), both flavours: every byte consumed, point, ideal-KEM key and flavour as on the wire",
+  bounds="explicit wire images of a classic (2 bytes) and a hybridized (4 bytes) right public key; all values symbolic")
+H("zr_userid_tpk_order_read", "serialization_min3", ["C13", "C17"], "quick", build="model", unwind=5, timeout=600, loops=CMP34,
+  covers=["distinct first and last element"],
+  desc="UserId::read / TracingPublicKey::read on a 3-element wire image: every byte consumed, first and last element in wire order",
+  bounds="explicit wire image: count 3 + 3 canonical elements, all symbolic")
 # (zw_usk_min_write, zr_msk_min_read, zw_msk_min_write -- the write half and the master-key halves on the same minimal shape --
 # passed 12-22 GB without finishing in 830 s; development entries)
 for _n in ["zw_usk_min_write", "zr_msk_min_read", "zw_msk_min_write"]:
@@ -366,7 +376,7 @@ CHECKS = {
                 outside="failures caused by serialization errors (unreachable), states with >2 rights"),
     "C11": dict(bounds_note="hint algebra tables; flavour through rekey/update/mpk/serialization; encapsulation mode selection",
                 outside="combine() over a structure (policy layer), E_j bound into the tag for hybridized encapsulations"),
-    "C13": dict(bounds_note="read halves only, minimal shapes, against explicit wire images W(v): UserSecretKey (one right with the empty name, chain of 2 revisions: newest classic, oldest hybridized), XEnc (hybridized, 1 trap, 1 right-encapsulation), EncryptedHeader (empty metadata vector = absent metadata; 1 byte of metadata) -- every byte consumed, every field, order and flavour as on the wire; all values symbolic",
+    "C13": dict(bounds_note="read halves only, minimal shapes, against explicit wire images W(v): UserSecretKey (one right with the empty name, chain of 2 revisions: newest classic, oldest hybridized), XEnc (hybridized, 1 trap, 1 right-encapsulation), EncryptedHeader (empty metadata vector = absent metadata; 1 byte of metadata), RightPublicKey (both flavours), UserId and TracingPublicKey (3 elements, order) -- every byte consumed, every field, order and flavour as on the wire; all values symbolic",
                 outside="every write half and length() (harnesses time out), MasterSecretKey and MasterPublicKey (time out), classic XEnc with 2 right-encapsulations (times out), CleartextHeader, AccessStructure / Dimension; ids, tracing points, right names, trailing signature; more than one right, chains > 2; use of a deserialized key in later operations; bytes of the pinned release beyond the layouts W spelled out in the harnesses"),
     "C14": dict(bounds_note="UserId / TracingPublicKey parsers on every byte string <= 6 bytes; accessors and decaps on degenerate parsed values; revision iterator on a key without chains",
                 outside="XEnc / USK parsers beyond the thorough-tier lengths, MPK/MSK/AccessStructure/EncryptedHeader parsers, read_vec's vec![0; len] in the dependency, wall-clock/RSS of a real process"),
